@@ -63,6 +63,9 @@ fn update_lo(lo: &mut Lo, op: &Op, pre: &Model, post: &Model) {
             let old = pre.cur;
             lo.kill.insert(old, pre.segs.get(&old).map(|v| v.len()).unwrap_or(0));
         }
+        Op::DamageReopen { .. } => {
+            // (histories with this operation are not run in crash-image mode)
+        }
         Op::Reopen => {
             let old = pre.cur;
             lo.kill.insert(old, pre.segs.get(&old).map(|v| v.len()).unwrap_or(0));
@@ -205,6 +208,10 @@ fn power_expectations(fk: &[SFrame], kfiles: &BTreeMap<u64, std::sync::Arc<Vec<u
 }
 
 pub fn run_crash_points(spec: &CaseSpec, root: &Path, seed: u64, acc: &mut Acc, only: Option<&CrashSel>) -> Result<(), String> {
+    if spec.ops.iter().any(|o| matches!(o, Op::DamageReopen { .. })) {
+        // the harness itself rewrites a segment file in such a history: no crash images
+        return Ok(());
+    }
     let sim_root = root.join("crashroot");
     let _ = std::fs::remove_dir_all(&sim_root);
     std::fs::create_dir_all(&sim_root).map_err(|e| format!("mkdir {}: {}", sim_root.display(), e))?;
